@@ -46,6 +46,7 @@ def P(pid):
                                'from sign and verify (necessary for agreement), ciphersuite constant table. The pairing algebra is not decided.')
     elif pid == 'C02':
         R = [
+            ('RF-E decoder inputs are copied, never computed', rf_frame.rule_decoder_input_integrity, 2),
             ('RF-Y failures of fallible operations are never discarded', rf_errors.rule_errors_not_discarded, 60),
             ('RF-B pass-through arguments keep their role', rf_consts.rule_argument_roles, 40),
             ('RF-B message lists handed down whole', rf_consts.rule_list_integrity, 15),
@@ -64,6 +65,7 @@ def P(pid):
                                'messages, header and the interface constants in its data-dependence slice. Collision resistance is assumed.')
     elif pid == 'C04':
         R = [
+            ('RF-E decoder inputs are copied, never computed', rf_frame.rule_decoder_input_integrity, 2),
             ('RF-D identity / zero guards test the value that is used afterwards', rf_gates.rule_guards_test_final_value, 4),
             ('RF-Y failures of fallible operations are never discarded', rf_errors.rule_errors_not_discarded, 60),
             ('RF-B pass-through arguments keep their role', rf_consts.rule_argument_roles, 40),
@@ -190,6 +192,7 @@ def P(pid):
         meta['assumptions'] = ['slice/Vec lengths are bounded by isize::MAX / size_of(element)', 'external crates do not panic on the paths used (contracts in audit.py)']
     elif pid == 'C09':
         R = [
+            ('RF-E decoder inputs are copied, never computed', rf_frame.rule_decoder_input_integrity, 2),
             ('RF-Y failures of fallible operations are never discarded', rf_errors.rule_errors_not_discarded, 60),
             ('RF-E decoder framing', rf_frame.rule_decoder_framing, 7),
             ('RF-D identity / zero exclusion in decoders', lambda c: rf_gates.rule_accept_requirements(c, T.DECODER_REQS), 6),
